@@ -25,6 +25,8 @@ where
     K: Eq + Hash,
     T: Clone,
 {
+    #[cfg(feature = "verif_hooks")]
+    use crate::verif_hooks::OrderMap as HashMap;
     let mut grouping: HashMap<K, Vec<T>> = HashMap::new();
     data.iter()
         .fold(&mut grouping, |acc, t| {
